@@ -53,6 +53,9 @@ class Harness:
         self.finding = meta.get('finding')            # id of a known finding this harness witnesses
         self.native = meta.get('native', 'yes') == 'yes'   # 'no': stand-ins without native rendering -> no native playback
         self.optional = meta.get('optional', 'no') == 'yes'   # a solver timeout is reported but does not make the check undecided
+        # 'yes': the obligation says the call returns BEFORE any loop longer than the unwind bound is entered (a rejection that
+        # precedes a large allocation); a failed unwinding assertion is then itself the refutation, not a bound that is too small
+        self.loops_unreached = meta.get('loops_unreached', 'no') == 'yes'
         self.kc = kc
 
 
@@ -250,6 +253,8 @@ def classify(h: Harness, res):
         if not descs:
             return 'undecided', 'FAILED without failed checks: ' + raw[-300:]
         if not real:
+            if h.loops_unreached:
+                return 'refuted', 'a loop the obligation says is never entered was entered (beyond the unwind bound): ' + '; '.join(descs)
             return 'undecided', 'unwinding bound too small: ' + '; '.join(descs)
         if unsup and len(unsup) == len(real):
             return 'undecided', 'unsupported construct reached: ' + '; '.join(unsup)
